@@ -7,39 +7,40 @@ import (
 )
 
 var verifPrefixes = []string{
-	"",               // 0
-	"a ",             // 1
-	"a LOGIN ",       // 2
-	"a SEARCH ",      // 3
-	"a FETCH 1 ",     // 4
-	"a APPEND x ",    // 5
-	"a STORE 1 ",     // 6
-	"a LIST ",        // 7
-	"a UID ",         // 8
-	"a STATUS x ",    // 9
-	"a ID ",          // 10
-	"a SEARCH OR ",   // 11
-	"a FETCH 1 BODY[", // 12
-	"a NOOP",         // 13
+	"",                                 // 0
+	"a ",                               // 1
+	"a LOGIN ",                         // 2
+	"a SEARCH ",                        // 3
+	"a FETCH 1 ",                       // 4
+	"a APPEND x ",                      // 5
+	"a STORE 1 ",                       // 6
+	"a LIST ",                          // 7
+	"a UID ",                           // 8
+	"a STATUS x ",                      // 9
+	"a ID ",                            // 10
+	"a SEARCH OR ",                     // 11
+	"a FETCH 1 BODY[",                  // 12
+	"a NOOP",                           // 13
 	"a SEARCH (((((((((((((((((((((((", // 14: nesting prefix (24 levels)
-	"a SELECT ",      // 15
-	"a COPY 1 ",      // 16
-	"a SEARCH BEFORE ", // 17
-	"a APPEND x (\\Seen) ", // 18
-	"a LOGIN {",      // 19: literal size field and what follows
-	"a LOGIN \"",     // 20: inside a quoted string
-	"a LIST \"\" ",   // 21: list-mailbox argument
-	"a FETCH 1 BODY[HEADER.FIELDS (", // 22
-	"a STATUS x (",   // 23
+	"a SELECT ",                        // 15
+	"a COPY 1 ",                        // 16
+	"a SEARCH BEFORE ",                 // 17
+	"a APPEND x (\\Seen) ",             // 18
+	"a LOGIN {",                        // 19: literal size field and what follows
+	"a LOGIN \"",                       // 20: inside a quoted string
+	"a LIST \"\" ",                     // 21: list-mailbox argument
+	"a FETCH 1 BODY[HEADER.FIELDS (",   // 22
+	"a STATUS x (",                     // 23
 }
 
 // VerifC11Parse: an arbitrary byte string (after a fixed prefix that positions the parser), followed by
 // end of stream, is fed through command.Parser.Parse.
-//  (1) no run-time panic                                         (implicit)
-//  (2) the parser stops reading once the stream has ended        (assertion inside the reader stub)
-//  (3) an error that is not an *rfcparser.Error is only returned when the stream has ended - any other
-//      error makes the session's reader goroutine exit and the connection close without a response
-//  (4) when the error will be answered with BAD, the result still carries the tag of the line
+//
+//	(1) no run-time panic                                         (implicit)
+//	(2) the parser stops reading once the stream has ended        (assertion inside the reader stub)
+//	(3) an error that is not an *rfcparser.Error is only returned when the stream has ended - any other
+//	    error makes the session's reader goroutine exit and the connection close without a response
+//	(4) when the error will be answered with BAD, the result still carries the tag of the line
 func VerifC11Parse() {
 	n := vsymParam("n")
 	pfx := verifPrefixes[vsymParam("prefix")]
